@@ -1,10 +1,11 @@
 """C04 - Context non-interference between Split/Zip branches and across accumulators.
 
 Part A (branches, differential): every ordered list of 2..3 branches built from in-place mutators
-(user element, Variable, UpdateContext, MakeFilename, Count) and an observer / accumulator terminal is
-put into a real Split (copy_buf=True) or Zip and driven by run, by fill+compute, by fill+request, with
-a plain and with a *hostile* consumer (edits in place everything it receives before it asks for the
-next value). What leaves branch i (snapshot taken by a Tap at the end of the branch) must equal what
+(user element, Variable, UpdateContext, MakeFilename, Count) and an observer / accumulator terminal - or
+a Source, the branch that generates its own flow and does not read the Split's, at every position of
+the list - is put into a real Split (copy_buf=True) or Zip and driven by run, by fill+compute, by
+fill+request, with a plain and with a *hostile* consumer (edits in place everything it receives before
+it asks for the next value). What leaves branch i (snapshot taken by a Tap at the end of the branch) must equal what
 the same branch yields when it is the only branch of a Split over a fresh equal flow (for Zip: when the
 other branches carry no mutators); no dict or list may be reachable from the outputs of two different
 branches, and the values that leave one branch may have a mutable object in common only where they have
@@ -19,7 +20,8 @@ Part B (accumulators, explicit-state exploration of event histories): every hist
 every framework accumulator that keeps the context of the last filled value, bare and behind
 FillComputeSeq / FillRequest / Split / Zip. After the last event of every history: the containers
 reachable from every yielded context are disjoint from those of every filled value's context and from
-those of every other yielded context; a poison leaves the filled values as they were; a compute gives
+those of every other yielded context (of an earlier compute or of the same one: accumulators that yield
+several values at one compute are in the alphabet); a poison leaves the filled values as they were; a compute gives
 what an un-poisoned twin gives.
 """
 import itertools
@@ -32,7 +34,8 @@ from mc.ref import c04_lib as L
 ID = "C04"
 LEVEL = "model_checking"
 DESIGN_REF = "DESIGN.md section 5, C04"
-RULE = ("Part A: one evaluation = one (container, drive mode, ordered branch list, bufsize, flow length, "
+RULE = ("Part A: one evaluation = one (container, drive mode, ordered branch list - flow-reading branches "
+        "and, under Split.run, Source branches at every position -, bufsize, flow length, "
         "consumer, flow of different / of equal values, container as built / deep copy next to its "
         "template) executed on a fresh Split/Zip plus the cached single-branch reference runs; it is "
         "non-trivial when there are >= 2 branches, the flow is not empty and at least one branch, run "
@@ -57,6 +60,9 @@ ASSUMPTIONS = [
     "filename consuming the prefix), Count (as run / fill_into element); terminals: none (Sequence "
     "branch), StoreFilled (group and one by one), Count as FillCompute, FillRequest(StoreFilled, "
     "bufsize=1, reset=True, buffer_input=True)",
+    "Source branches (Split.run only; Zip and the common-type fill of Split have none): a generator of "
+    "2 values made anew at every call, then the mutators as run elements; the Source alone is the Source "
+    "as the only member of the Split, which calls it once whatever the flow",
     "'a branch alone' is, for Split, the same branch as the only member of a Split with the same "
     "bufsize, drive mode and consumer over a fresh equal flow (the block schedule itself is C03's); "
     "for Zip it is the same branch at the same position among the same terminals with the other "
@@ -66,7 +72,10 @@ ASSUMPTIONS = [
     "cases whose construction raises (e.g. F20: bufsize=None forwarded to FillRequestSeq) or in which "
     "a branch raises when run alone are not judged",
     "framework accumulators = elements that keep _cur_context (Sum, DSum, Mean, VarianceMeanCount, "
-    "Vectorize, Count, Histogram, SplitIntoBins, Graph); StoreFilled/GroupBy yield the filled values "
+    "Vectorize, Count, Histogram, SplitIntoBins, Graph), and those of them whose compute() may yield "
+    "several values also in a configuration that does (Mean over a sum sequence with two results, "
+    "Vectorize over components that yield one result per filled value, SplitIntoBins over an analysis "
+    "with two results): the yields of one compute() are 'earlier yields' for each other; StoreFilled/GroupBy yield the filled values "
     "themselves by design (rule R1) and NumpyHistogram needs numpy",
     "only *contexts* are judged in Part B (Histogram and Graph yield their own data object by design); "
     "in-place updates an accumulator itself makes to the stored context of the last filled value "
@@ -82,18 +91,19 @@ BUDGET_S = {"quick": 240, "thorough": 1500}
 # bounds
 
 def _dom(tier):
-    """same2 / same3: flow lengths for which 2- / 3-branch lists are also run over a flow of EQUAL values;
+    """src2 / src3: mutators of the Source branches that 2- / 3-branch lists may contain;
+    same2 / same3: flow lengths for which 2- / 3-branch lists are also run over a flow of EQUAL values;
     copy2 / copy3: (flow length, hostile consumer) for which they are also run as a deep copy next to
     its template."""
     if tier == "thorough":
         return dict(pre2=L.PRE_TOKENS, terms2=L.TERM_TOKENS, pairs_of_mutators=True, nmax2=3,
                     pre3=L.PRE_TOKENS, terms3=L.TERM_TOKENS, nmax3=3, bufs3=None, hist=7,
-                    same2=(2, 3), same3=(2, 3),
+                    src2=L.SRC_PRE, src3=("none", "usr"), same2=(2, 3), same3=(2, 3),
                     copy2=tuple((n, h) for n in (1, 2, 3) for h in (False, True)),
                     copy3=((2, False),))
     return dict(pre2=L.PRE_TOKENS[:7] + ("usrsl",), terms2=L.TERM_TOKENS[:4], pairs_of_mutators=False, nmax2=3,
                 pre3=("none", "usr", "upd", "mkf", "cnt", "usrsl"), terms3=L.TERM_TOKENS[:4], nmax3=2,
-                bufs3=(1, 2, None), hist=5,
+                bufs3=(1, 2, None), hist=5, src2=("none", "usr"), src3=("none",),
                 same2=(2, 3), same3=(), copy2=((1, False), (2, False), (2, True)), copy3=())
 
 
@@ -102,17 +112,19 @@ def describe(tier):
     def copies(c):
         return ", ".join("%d (%s consumer)" % (n, "hostile" if h else "plain") for n, h in c) or "none"
 
-    return ("Part A: branch = mutator(s) + terminal. 2-branch lists: one mutator of %s%s, terminal of %s, "
+    return ("Part A: branch = mutator(s) + terminal, or a Source (generator + mutator; Split.run only). "
+            "2-branch lists: one mutator of %s%s, terminal of %s, Source with a mutator of %s, "
             "flows 0..%d, bufsize in {1, 2, n+1, 1000, None}. 3-branch lists: one mutator of %s, terminal "
-            "of %s, flows 0..%d, bufsize in %s. All ordered lists; Split by run / fill+compute / "
+            "of %s, Source with a mutator of %s, flows 0..%d, bufsize in %s. All ordered lists (a Source "
+            "at every position); Split by run / fill+compute / "
             "fill+request (request at the end, after every fill), Zip by fill+compute / fill+request; "
             "plain and hostile consumer. Also over flows of equal values: 2-branch lists for flow lengths "
             "%s, 3-branch lists for %s; also as a deep copy next to its template: 2-branch lists for flow "
             "lengths %s, 3-branch lists for %s. Part B: accumulators %s x wrappers %s, all histories over "
             "fill/compute/poison of length <= %d"
             % (list(d["pre2"]), " or an ordered pair of two different mutators"
-               if d["pairs_of_mutators"] else "", list(d["terms2"]), d["nmax2"], list(d["pre3"]),
-               list(d["terms3"]), d["nmax3"],
+               if d["pairs_of_mutators"] else "", list(d["terms2"]), list(d["src2"]), d["nmax2"],
+               list(d["pre3"]), list(d["terms3"]), list(d["src3"]), d["nmax3"],
                "{1, 2, n+1, 1000, None}" if d["bufs3"] is None else list(d["bufs3"]),
                list(d["same2"]), list(d["same3"]) or "none", copies(d["copy2"]), copies(d["copy3"]),
                list(L.ACCS), list(L.WRAPS), d["hist"]))
@@ -120,7 +132,13 @@ def describe(tier):
 
 def _kinds3(tier):
     d = _dom(tier)
-    return [[p, t] for p in d["pre3"] for t in d["terms3"]]
+    return [[p, t] for p in d["pre3"] for t in d["terms3"]] + [[p, L.SRC_TOKEN] for p in d["src3"]]
+
+
+def _terms3(tier):
+    """The terminals by which the second branch of a 3-branch list selects its shard."""
+    d = _dom(tier)
+    return list(d["terms3"]) + ([L.SRC_TOKEN] if d["src3"] else [])
 
 
 def _kinds2(tier):
@@ -132,6 +150,7 @@ def _kinds2(tier):
         for a, b in itertools.permutations(muts, 2):
             for t in d["terms2"]:
                 out.append([a, b, t])
+    out.extend([p, L.SRC_TOKEN] for p in d["src2"])
     return out
 
 
@@ -157,7 +176,7 @@ def shards(tier):
             out.append({"part": "A", "n_branches": 2, "first": i, "half": half})
     # 3-branch lists: one shard per (first branch, second branch's terminal)
     for i in range(len(k3)):
-        for t in _dom(tier)["terms3"]:
+        for t in _terms3(tier):
             out.append({"part": "A", "n_branches": 3, "first": i, "second_term": t})
     return out
 
@@ -298,6 +317,8 @@ def check_a(res, container, kinds, bufsize, n, mode, hostile, flow="distinct", o
     res.count("A_%s_%s" % (container, mode))
     if hostile:
         res.count("A_hostile_consumer")
+    if any(k[-1] == L.SRC_TOKEN for k in kinds):
+        res.count("A_with_a_source_branch")
     if flow != "distinct":
         res.count("A_flow_of_equal_values")
     if origin != "fresh":
@@ -588,9 +609,11 @@ def replay(case):
 
 LEVEL_TEXT = ("explicit-state exploration of the real accumulators: every history over {fill a fresh "
               "value, compute/request, edit in place everything yielded so far} up to length 5 (thorough: "
-              "7) on 11 accumulator configurations x 6 wrappers, with an id-graph invariant and an "
+              "7) on 14 accumulator configurations (3 of them yield several values per compute) x 6 "
+              "wrappers, with an id-graph invariant and an "
               "un-poisoned twin; plus bounded exhaustive enumeration of all ordered lists of 2..3 "
-              "mutating branches x bufsize x flow length x drive mode x consumer for Split and Zip (also "
+              "mutating branches of every sequence type Split accepts (Sequence, FillCompute, FillRequest, "
+              "Source) x bufsize x flow length x drive mode x consumer for Split and Zip (also "
               "over flows of equal values and for a deep copy driven next to its template), each branch "
               "compared with the same branch alone")
 LEVEL_NOTE = ("holds for the enumerated alphabet and bounds only; 'alone' keeps the container's block "
